@@ -240,7 +240,8 @@ fn scenario_pipeline() {
     let mut per_round: Vec<Vec<usize>> = Vec::new();
     for _ in 0..=rounds {
         let n = rng.gen_range(0..=3);
-        per_round.push((0..n).map(|_| rng.gen_range(1..=cap)).collect());
+        // a quarter of the contigs are larger than the whole capacity: push() admits such an item once the queue is empty
+        per_round.push((0..n).map(|_| if rng.gen_range(0..4) == 0 { rng.gen_range(cap + 1..=cap + 3) } else { rng.gen_range(1..=cap) }).collect());
     }
     let sig = format!("workers={} cap={} rounds={:?}", n_workers, cap, per_round);
     let processed = Arc::new(Mutex::new(Vec::<u32>::new()));
